@@ -37,7 +37,7 @@ for arg in sys.argv[2:]:
             if m:
                 det[m.group(1)] = {"rc": int(m.group(2)), "line": m.group(3)[:200]}
     notes = open(os.path.join(src, "NOTES.md")).read() if os.path.exists(os.path.join(src, "NOTES.md")) else ""
-    meta = dict(name=name, breaks_property=pid, origin="written by an independent sub-agent given only the property text and a scratch worktree",
+    meta = dict(name=name, breaks_property=pid[:3], origin="written by an independent sub-agent given only the property text and a scratch worktree",
                 needs_to_manifest=(re.search(r"(?is)##\s*trigger[^\n]*\n(.{0,600})", notes) or [None, ""])[1].strip()[:600],
                 confirmed_by_me=conf,
                 confirm_cmd="tools/confirm_mutant.sh %s seeded/%s" % (name, name),
